@@ -152,17 +152,42 @@ func solveAll(obs []*Obligation, dir string, timeoutS int, keep bool) {
 						}
 					}
 				}
-				// goal-directed trigger matching first
-				if !done && os.Getenv("GOVC_NODINST") == "" {
-					if dq := q.Directed(4); dq != nil {
+				// counterexample-guided hypothesis selection over the quantifier-free hypotheses and directed instances
+				if !done && os.Getenv("GOVC_NOLAZY") == "" {
+					if lg, lc := q.LazyCandidates(dinstRounds()); lg != nil && len(lc) > 0 {
 						ct := timeoutS
-						if ct > 20 {
-							ct = 20
+						if ct > 10 {
+							ct = 10
 						}
-						f := writeQuery(dir, o.Name+".dinst", dq.Script(nil))
+						if os.Getenv("GOVC_NONORM") == "" {
+							nq := (&Query{Hyps: lc, Goal: lg}).Normalized()
+							lg, lc = nq.Goal, nq.Hyps
+						}
+						r := lazySplit(lg, lc, q.Extra, q.FPMode, dir, o.Name, ct, 60, keep, 2)
+						if r.Status == "unsat" {
+							o.Res = r
+							done = true
+						}
+					}
+				}
+				// goal-directed trigger matching first: small queries, growing
+				if !done && os.Getenv("GOVC_NODINST") == "" {
+					for si, dq := range q.DirectedStages(dinstRounds()) {
+						if done {
+							break
+						}
+						ct := timeoutS
+						if ct > 10 {
+							ct = 10
+						}
+						sfx := fmt.Sprintf(".dinst%d", si)
+						if os.Getenv("GOVC_NONORM") == "" {
+							dq = dq.Normalized()
+						}
+						f := writeQuery(dir, o.Name+sfx, dq.Script(nil))
 						r := RunPortfolio(f, ct, "")
 						if r.Status == "unsat" {
-							r.Solver += "+dinst"
+							r.Solver += "+" + sfx[1:]
 							o.Res = r
 							done = true
 						}
@@ -171,10 +196,10 @@ func solveAll(obs []*Obligation, dir string, timeoutS int, keep bool) {
 						}
 						if !done && r.Status != "sat" {
 							if ab := dq.AbstractArith(); ab != nil {
-								fa := writeQuery(dir, o.Name+".dinst_abs", ab.Script(nil))
+								fa := writeQuery(dir, o.Name+sfx+"_abs", ab.Script(nil))
 								ra := RunPortfolio(fa, ct, "")
 								if ra.Status == "unsat" {
-									ra.Solver += "+dinst-abs"
+									ra.Solver += "+" + sfx[1:] + "-abs"
 									o.Res = ra
 									done = true
 								}
@@ -379,4 +404,15 @@ func hasHardArith(t *Term) bool {
 		return false
 	}
 	return rec(t)
+}
+
+func dinstRounds() int {
+	if s := os.Getenv("GOVC_DROUNDS"); s != "" {
+		n := 0
+		fmt.Sscanf(s, "%d", &n)
+		if n > 0 {
+			return n
+		}
+	}
+	return 3
 }
